@@ -12,7 +12,7 @@ import SqlglotModel.Generated.C11
 
 namespace SqlglotModel.Properties.C11
 open SqlglotModel.Sem SqlglotModel.Exec
-open SqlglotModel.Generated.C11 (cfg envIdentity widenForm)
+open SqlglotModel.Generated.C11 (cfg envIdentity widenForm subqueryEnv subqCmpWrapped)
 
 /-- finite table fact (decided completely): the constants, index offsets, side sets, empty_null flags and operator
     lambdas extracted from the current source are the ones the theorems below are proved for -/
@@ -336,6 +336,49 @@ theorem rebind_breaks_views_witness :
       = [[.int 1, .int 10], [.int 2, .int 20]]
     ∧ (((Heap.ofJoin [[.int 2], [.int 1]] 2).widen .attributeRebind [[.int 20], [.int 10]]).sortInPlace (fun r => r.take 1)).read 1
       = [[.int 2], [.int 1]] := by
+  decide +kernel
+
+/-! ## quantified comparisons over a subquery result (IN / NOT IN / op ANY / op ALL) -/
+
+/-- the reference semantics on the empty result: NOT IN and ALL are TRUE, IN and ANY FALSE — for EVERY probe, NULL included -/
+theorem quantified_empty (op : CmpOp) (v : Val) :
+    notInSub v [] = some true ∧ all3 op v [] = some true ∧ inSub v [] = some false ∧ any3 op v [] = some false :=
+  ⟨not_in_empty_true v, all_empty_true op v, in_empty_false v, any_empty_false op v⟩
+
+/-- a NULL probe against a non-empty result is UNKNOWN -/
+theorem quantified_null_probe (op : CmpOp) (xs : List Val) (h : xs ≠ []) : any3 op .null xs = none ∧ all3 op .null xs = none :=
+  null_probe_unknown op xs h
+
+/-- IN is ∃ under 3VL: TRUE iff an element matches; with a NULL in the result it is never FALSE -/
+theorem in_subquery_3vl (v : Val) (xs : List Val) :
+    (inSub v xs = some true ↔ (v ≠ .null ∧ v ∈ xs))
+    ∧ (inSub v xs = some false ↔ (xs = [] ∨ (v ≠ .null ∧ ¬ .null ∈ xs ∧ ¬ v ∈ xs)))
+    ∧ (v ≠ .null → .null ∈ xs → ¬ v ∈ xs → inSub v xs = none) :=
+  ⟨in_true_iff v xs, in_false_iff v xs, fun hv hn hm => (in_with_null_unknown_unless_match v xs hv hn).2 hm⟩
+
+/-- NOT IN is ∀ under 3VL -/
+theorem not_in_subquery_is_all_ne (v : Val) (xs : List Val) : notInSub v xs = all3 .ne v xs := not_in_is_all_ne v xs
+
+/-- finite table re-extracted from PythonExecutor.__init__: SUBQUERY_COMPARISON / _EXISTS / _SCALAR are registered bare
+    (their NULL behaviour is NOT strict: a NULL probe over an empty result is TRUE / FALSE, not NULL) -/
+theorem generated_subquery_env_ok :
+    subqueryEnv = [("SUBQUERY_COMPARISON", "bare"), ("SUBQUERY_EXISTS", "bare"), ("SUBQUERY_SCALAR", "bare")]
+    ∧ subqCmpWrapped = false := by decide +kernel
+
+/-- the ENV entry as the executor registers it computes the quantified comparison for every probe (NULL included) and
+    every result list (empty included); `x NOT IN (subquery)` = NOT(… 'EQ', 'ANY') is the reference NOT IN -/
+theorem subquery_env_spec (op : CmpOp) (v : Val) (xs : List Val) :
+    subqueryComparisonEnv subqCmpWrapped cfg (cmpName op) "ANY" v xs = some (triVal (any3 op v xs))
+    ∧ subqueryComparisonEnv subqCmpWrapped cfg (cmpName op) "ALL" v xs = some (triVal (all3 op v xs))
+    ∧ notInSubquery subqCmpWrapped cfg v xs = some (triVal (notInSub v xs)) := by
+  rw [generated_subquery_env_ok.2, generated_cfg_ok]
+  exact subquery_comparison_env_spec op v xs
+
+/-- witness: wrapped in null_if_any("value") the entry answers NULL for a NULL probe over the EMPTY result, where
+    `NULL NOT IN ()` and `NULL > ALL ()` are TRUE (a WHERE would drop the row) -/
+theorem wrapped_subquery_comparison_witness :
+    notInSubquery true cfg .null [] = some .null ∧ triVal (notInSub .null []) = .bool true
+    ∧ subqueryComparisonEnv true cfg "GT" "ALL" .null [] = some .null ∧ triVal (all3 .gt .null []) = .bool true := by
   decide +kernel
 
 end SqlglotModel.Properties.C11
